@@ -604,8 +604,22 @@ func subC03(out string, seed uint64, tier string, arg string) {
 			}
 		}
 	}
-	for ci := 0; ci < ncert && ci < len(certs); ci++ {
-		o := certs[(ci*29+int(seed))%len(certs)]
+	// objects that carry other instants besides the one the window is about (embedded SCT timestamps): they come first in the
+	// sample, with a validity period long enough to contain those instants — only notBefore may decide the window
+	var withSCT []*Obj
+	for _, o := range certs {
+		if len(o.Cert.SignedCertificateTimestampList) > 0 && len(withSCT) < 3 {
+			withSCT = append(withSCT, o)
+		}
+	}
+	rep.count(fmt.Sprintf("certificates-with-embedded-timestamps=%d", len(withSCT)))
+	for ci := 0; ci < ncert+len(withSCT) && ci < len(certs); ci++ {
+		var o *Obj
+		if ci < len(withSCT) {
+			o = withSCT[ci]
+		} else {
+			o = certs[((ci-len(withSCT))*29+int(seed))%len(certs)]
+		}
 		cd, err := ParseCertDER(o.DER)
 		if err != nil {
 			continue
@@ -614,9 +628,23 @@ func subC03(out string, seed uint64, tier string, arg string) {
 		if validity <= 0 || validity > 40*365*24*time.Hour {
 			validity = 90 * 24 * time.Hour
 		}
+		var latest time.Time
+		for _, sct := range o.Cert.SignedCertificateTimestampList {
+			if sct != nil {
+				if ts := time.Unix(int64(sct.Timestamp/1000), 0); ts.After(latest) {
+					latest = ts
+				}
+			}
+		}
 		for _, d := range ds {
 			for _, delta := range []int64{-1, 0, 1} {
 				nb := time.Unix(d+delta, 0).UTC()
+				if !latest.IsZero() && nb.Add(validity).Before(latest.Add(24*time.Hour)) && latest.Sub(nb) < 40*365*24*time.Hour {
+					cd.SetValidity(nb, latest.Add(24*time.Hour).UTC())
+					if m := parseObj("cert", o.Name+"+long-validity", cd.Bytes()); m != nil && m.Cert.NotBefore.Equal(nb) {
+						check(m, nb, fmt.Sprintf("%d%+d/sct", d, delta))
+					}
+				}
 				cd.SetValidity(nb, nb.Add(validity))
 				m := parseObj("cert", o.Name, cd.Bytes())
 				if m == nil || !m.Cert.NotBefore.Equal(nb) {
